@@ -246,8 +246,26 @@ func CheckC13(tier string) {
 			rep.Inconc("reference package does not compile: " + p.S.Name + ": " + firstLine(p.WBuildErr))
 			continue
 		case p.MigExit != 0 || p.Migrated == "":
-			rep.Eval("")
-			rep.Count("refused_by_migrate:"+migrateRefusalClass(p.MigErr), 1)
+			cls := migrateRefusalClass(p.MigErr)
+			rep.Count("refused_by_migrate:"+cls, 1)
+			if os.Getenv("VERIF_DEBUG") != "" {
+				fmt.Fprintln(os.Stderr, "MIGRATE-REFUSES", p.S.Name, lastLine(p.MigErr))
+			}
+			// google/wire accepted the configuration and the family only uses the
+			// supported constructs. Refusals with one of migrate's own documented
+			// diagnostics (no constructor, unnamed implementation, ...) are counted;
+			// an internal error or a "defined in multiple files" for sets that are
+			// declared once means there is no migrated injector to compare at all.
+			if cls == "other" || cls == "defined-in-multiple-files" {
+				rep.Eval(p.S.Name + "/migrate")
+				sub := cls
+				if strings.Contains(lastLine(p.MigErr), "internal error") {
+					sub = "internal-error"
+				}
+				rep.Violate(base.Violation{Sig: "C13/migrate-refuses-accepted-configuration/" + sub, What: fmt.Sprintf("%s: google/wire generates injectors for this configuration, kessoku migrate exits %d: %s", p.S.Name, p.MigExit, lastLine(p.MigErr)), Files: p.files()})
+			} else {
+				rep.Eval("")
+			}
 			continue
 		case len(missingInjectors(p)) > 0:
 			rep.Eval(p.S.Name + "/migrate")
